@@ -101,8 +101,11 @@ class Explorer:
         self.functions_executed = set()
         self.exhausted = True
         self.fuel = 10 ** 9
+        self.eval_left = 10 ** 12
         self.on_violation = None
         self.split_depth = None
+        self.keep_leftover = False
+        self.leftover = []
         self.frontier = []
         self.counters = {}
 
@@ -127,7 +130,7 @@ class Explorer:
         return r
 
     # ----------------------------------------------------------------------------------------
-    def explore(self, thunk, on_end=None, initial_traces=None):
+    def explore(self, thunk, on_end=None, initial_traces=None, breadth_first_until=None):
         """Run `thunk(self)` along every feasible path.  `on_end(ex, outcome)` is called at the end
         of every completed path with outcome = ('ok', value) | ('panic', PanicEx) | ('fuel', None)."""
         from .interp import PanicEx
@@ -140,11 +143,25 @@ class Explorer:
                     self.exhausted = False
                     break
                 if self.deadline is not None and time.time() > self.deadline:
-                    self.exhausted = False
+                    if self.keep_leftover:
+                        self.leftover = [list(t) for t in frame.worklist]
+                        frame.worklist = []
+                    else:
+                        self.exhausted = False
                     break
-                trace = frame.worklist.pop()
+                if breadth_first_until is not None:
+                    # splitting phase of a parallel exploration: shallow paths first, stop as soon
+                    # as enough unexplored subtrees are pending; they are handed to the workers
+                    if len(frame.worklist) >= breadth_first_until:
+                        self.frontier = [list(t) for t in frame.worklist]
+                        frame.worklist = []
+                        break
+                    trace = frame.worklist.pop(0)
+                else:
+                    trace = frame.worklist.pop()
                 frame.reset_path(trace)
                 self.fuel_left = self.fuel
+                self.eval_left = self.fuel * 40
                 frame.solver.push()
                 try:
                     try:
